@@ -61,7 +61,7 @@ func c12Run(w *W) {
 	nblocks := 2 + w.Choose(simrt.SShape, 5)
 	var seen []string
 	for bi := 0; bi < nblocks && !w.Failed(); bi++ {
-		blk := w.Choose(simrt.SProg, 13)
+		blk := w.Choose(simrt.SProg, 14)
 		seen = append(seen, fmt.Sprint(blk))
 		switch blk {
 		case 0: // bad scheme
@@ -362,6 +362,61 @@ func c12Run(w *W) {
 				}
 			}
 			w.Probe("real-stream-endpoints-in-simulation")
+		case 13: // a second Dial on a started dialer; endpoints whose construction is refused for a bad option
+			tran := w.simFallback([]string{"tcp", "ipc", "tls+tcp", "ws", "wss", "inproc"}[w.Choose(simrt.SProg, 6)])
+			a := w.Addr(tran)
+			ps := w.Sock(peerKind[kind])
+			if r := c.do(tran+" peer.Listen", func() (interface{}, error) { return nil, ps.ListenOptions(a, w.EpOpts(a, true, nil)) }); !r.Returned() || r.Err != nil {
+				ps.Close()
+				continue
+			}
+			d, err := s.NewDialer(a, w.EpOpts(a, false, map[string]interface{}{mangos.OptionDialAsynch: w.Choose(simrt.SProg, 2) == 0}))
+			if err != nil {
+				w.Failf("HARNESS/newdialer", "%s: %v", a, err)
+				return
+			}
+			c.do(tran+" d.Dial", func() (interface{}, error) { return nil, d.Dial() })
+			r2 := c.do(tran+" d.Dial(already started)", func() (interface{}, error) { return nil, d.Dial() })
+			if r2.Returned() && r2.Err == nil {
+				w.Failf("C12/second-dial-accepted", "%s: Dial on a dialer that is already started returned nil (two dial cycles on one dialer)", tran)
+			}
+			c.do(tran+" d.GetOption", func() (interface{}, error) { return d.GetOption(mangos.OptionReconnectTime) })
+			c.do(tran+" d.SetOption", func() (interface{}, error) { return nil, d.SetOption(mangos.OptionMaxReconnectTime, time.Second) })
+			c.do(tran+" d.Address", func() (interface{}, error) { return d.Address(), nil })
+			w.Probe("err-dial-on-started-dialer")
+			// construction refused: an option of the wrong type, an unknown
+			// option, a value out of range - nothing of the endpoint may stay
+			// behind (the address is still free, the socket still works)
+			b := w.Addr(tran)
+			bad := []map[string]interface{}{
+				{mangos.OptionReconnectTime: "soon"},
+				{"NO-SUCH-OPTION": 1},
+				{mangos.OptionMaxRecvSize: "big"},
+				{mangos.OptionDialAsynch: 7},
+			}[w.Choose(simrt.SProg, 4)]
+			r3 := c.do(tran+" DialOptions(bad option)", func() (interface{}, error) { return nil, s.DialOptions(a, w.EpOpts(a, false, bad)) })
+			if r3.Returned() && r3.Err == nil {
+				w.Failf("C19/bad-endpoint-option-accepted", "%s: DialOptions with %v returned nil", tran, bad)
+			}
+			lbad := []map[string]interface{}{
+				{mangos.OptionMaxRecvSize: "big"},
+				{"NO-SUCH-OPTION": 1},
+				{mangos.OptionMaxRecvSize: -5},
+			}[w.Choose(simrt.SProg, 3)]
+			if tran == "inproc" {
+				lbad = map[string]interface{}{"NO-SUCH-OPTION": 1}
+			}
+			r4 := c.do(tran+" ListenOptions(bad option)", func() (interface{}, error) { return nil, s.ListenOptions(b, w.EpOpts(b, true, lbad)) })
+			if r4.Returned() && r4.Err == nil {
+				w.Failf("C19/bad-endpoint-option-accepted", "%s: ListenOptions with %v returned nil", tran, lbad)
+			}
+			r5 := c.do(tran+" ListenOptions(corrected)", func() (interface{}, error) { return nil, s.ListenOptions(b, w.EpOpts(b, true, nil)) })
+			if r5.Returned() && r5.Err != nil {
+				w.Failf("C12/retry-failed", "%s: ListenOptions on %s failed for a bad option (%v); the corrected call on the same address returns %v", tran, b, r4.Err, r5.Err)
+			}
+			c.do(tran+" d.Close", func() (interface{}, error) { return nil, d.Close() })
+			c.do(tran+" peer.Close", func() (interface{}, error) { return nil, ps.Close() })
+			w.Probe("err-endpoint-construction-refused")
 		}
 		if w.WedgeCheck("C12") {
 			return
